@@ -767,7 +767,7 @@ def run_snapshots(parts, seed, ev, vd, gate_matrix, gate_handles):
 def run_histories(family, quick, ev, vd):
     from . import c07_cli
     # the command line and the singleton as systems under test (started at the top of run())
-    m = family.collect(1500 if quick else 3000)
+    m = family.collect(2400 if quick else 7200)
     for u in m['unjudged'][:3]:
         print('UNJUDGED C07 history: %s\n  %s\n  %s' % (u['err'], {k: u['scenario'].get(k) for k in ('fam', 'name', 'chains', 'opts', 'paths', 'mwkind')},
                                                           (u.get('log') or '')[-400:].replace('\n', '\n  ')), file=sys.stderr)
